@@ -291,8 +291,12 @@ def run_solve(session, case, si, ctx, bm, arm, model, reach):
                 if flips:
                     ctx.bump("local_convergence", "ill_conditioned")
                 else:
-                    ctx.violation("local_convergence", "no_local_convergence/" + key_path,
-                                  {"sigma_min": float(sv.min()), "start_dist": float(np.max(np.abs(t0 - gth))), "pos_tol": pt, "rot_tol": rt}, sess)
+                    # mechanism key: a position tolerance below what the logarithm can resolve (rotations under 1.5e-8 rad are
+                    # read as "no rotation"; at lever arm |p| that is 1.5e-8 |p| of position) is a finding of its own
+                    lever = max(1.0, float(np.linalg.norm(goal[:3, 3])))
+                    k = "no_local_convergence/below_log_resolution" if pt < 2e-8 * lever else "no_local_convergence/" + key_path
+                    ctx.violation("local_convergence", k,
+                                  {"sigma_min": float(sv.min()), "start_dist": float(np.max(np.abs(t0 - gth))), "pos_tol": pt, "rot_tol": rt, "lever": lever}, sess)
         else:
             ctx.cls("local_convergence_skipped_singular_or_redundant")
 
